@@ -447,8 +447,16 @@ func clCheckFetchOnce2(out *clOutcome) ([]clFinding, int) {
 	return fs, tileRereads
 }
 
+// clFailSeen bounds the number of reports per signature (Gen keeps 50 failures in all; one frequent signature — a
+// recorded known finding, say — must not crowd out a different one found later in the same run).
+var clFailSeen = map[string]int{}
+
 func clReport(g *Gen, fs []clFinding, sc *clScenario) {
 	for _, f := range fs {
-		g.Fail(f.sig, f.info, sc.String())
+		clFailSeen[f.sig]++
+		g.st.OracleTags["finding/"+f.sig]++
+		if clFailSeen[f.sig] <= 4 {
+			g.Fail(f.sig, f.info, sc.String())
+		}
 	}
 }
